@@ -266,7 +266,9 @@ impl fmt::Display for ValueMatch {
     fn fmt(&self, f: &mut fmt::Formatter<'_>) -> fmt::Result {
         match self {
             ValueMatch::Bool(ref inner) => fmt::Display::fmt(inner, f),
-            ValueMatch::F64(ref inner) => fmt::Display::fmt(inner, f),
+            // `Debug` keeps the decimal point (`1.0`, not `1`): printed with
+            // `Display`, a float matcher would parse back as an integer one.
+            ValueMatch::F64(ref inner) => fmt::Debug::fmt(inner, f),
             ValueMatch::NaN => fmt::Display::fmt(&f64::NAN, f),
             ValueMatch::I64(ref inner) => fmt::Display::fmt(inner, f),
             ValueMatch::U64(ref inner) => fmt::Display::fmt(inner, f),
